@@ -93,7 +93,7 @@ def run(tier, wd):
         if r.get("hang") or r.get("crash") or not r["ran"] or r["value"] != want:
             rep.violation("%s: variable is %s (ran=%s err=%s), written: %s" % (vc.describe(case), r.get("value"), r.get("ran"), r.get("err"), want),
                           {"engine": "values", "case": case, "expected": want})
-    rep.cov["typed_cases"] = len(vcases)
+    rep.cov["typed_cases"] = len(vcases) + vc.pair_part(rep, wd, binpath, rnd, "typed-pair", 1 if tier == "quick" else 4)
     rep.cov["evaluations"] += ncalls
     rep.cov["classes"] = dict(cnt)
     rep.cov["ambiguous_cases"] = ambiguous
@@ -124,7 +124,7 @@ def replay(path, wd):
         return 1 if bad else 0
     if o.get("engine") == "values":
         from props import valcommon as vc
-        return vc.replay_values(path, wd, lambda o, r: not (r.get("ran") and r.get("value") == o["expected"]))
+        return vc.replay_values(path, wd, lambda o, r: vc.pair_replay_bad(o, r) if "expected2" in o else not (r.get("ran") and r.get("value") == o["expected"]))
     if o.get("engine") == "refgroups":
         return gc.rerun_replay(path, wd, law="oracle")
     return rc.rerun_replay(path, wd, is_violation)
